@@ -1,11 +1,13 @@
 import Driver.Core
+import Driver.Shape
 namespace Drv
 open Lean IGVerif
 
 def parseCase (id : String) (tag : String) (s : Stmt) : Case :=
   let text := String.ofList (renderS s)
   { id := id, op := "parse", args := Json.mkObj [("text", text)],
-    exp := Json.str (showNode (denoteTop s)), tag := tag }
+    exp := Json.str (showNode (denoteTop s)), tag := tag,
+    note := Json.arr ((shapeChains s).map Json.str).toArray }
 
 def genC01Cases (tier : String) (seed : Nat) : Array Case := Id.run do
   let n := if tier = "thorough" then 6000 else 400
@@ -16,6 +18,28 @@ def genC01Cases (tier : String) (seed : Nat) : Array Case := Id.run do
     let (s, rng') := genC01 cfg rng
     rng := rng'
     out := out.push (parseCase s!"c01-r{i}" (if cfg.suffixes then "rand+sfx" else "rand") s)
+  pure out
+
+def genC02Cases (tier : String) (seed : Nat) : Array Case := Id.run do
+  let n := if tier = "thorough" then 3000 else 200
+  let mut out : Array Case := #[]
+  let mut rng : Rng := ⟨UInt64.ofNat (seed * 15485863 + 3)⟩
+  for i in [0:n] do
+    let cfg : NestCfg := { depth := if i % 4 = 0 then 3 else 2 }
+    let (s, rng') := genNested cfg rng
+    rng := rng'
+    out := out.push (parseCase s!"c02-r{i}" "nested" s)
+  pure out
+
+def genC03Cases (tier : String) (seed : Nat) : Array Case := Id.run do
+  let n := if tier = "thorough" then 3000 else 200
+  let mut out : Array Case := #[]
+  let mut rng : Rng := ⟨UInt64.ofNat (seed * 32452843 + 5)⟩
+  for i in [0:n] do
+    let cfg : NestCfg := { depth := if i % 3 = 0 then 1 else 0, pairs := true }
+    let (s, rng') := genNested cfg rng
+    rng := rng'
+    out := out.push (parseCase s!"c03-r{i}" "pairs" s)
   pure out
 
 /-- strip the effective-value keys that the canonical PNode does not carry -/
